@@ -283,7 +283,8 @@ class Sym(Exec):
             return self.exec_stmt(st, then)
         if z3.is_false(c):
             return self.exec_stmt(st, els) if els is not None else NORMAL
-        if self.merge_ifs and not self._has_jump(then) and (els is None or not self._has_jump(els)):
+        if self.merge_ifs and not self._has_jump(then) and (els is None or not self._has_jump(els)) \
+                and not self._fork_requested(n):
             nob = len(self.obligations)
             saved_counters = {k: (v if not hasattr(v, "__next__") else None) for k, v in ()}
             try:
@@ -296,7 +297,17 @@ class Sym(Exec):
                 f2 = self.exec_stmt(s2, els) if els is not None else NORMAL
                 if f1.kind != Flow.NORMAL or f2.kind != Flow.NORMAL:
                     raise CannotMerge()
-                self.merge_into(st, c, s1, s2)
+                # merge_into replaces st.mem.objs / extends st.pc before its trace and ghost checks can still raise
+                # CannotMerge: without restoring, the fall-back below would execute the branch a second time on the
+                # already merged state (x += 1 inside `if (c) { traced_call(); x += 1; }` was applied twice)
+                snap = (st.mem.objs, len(st.pc), st.trace, dict(st.ghost))
+                try:
+                    self.merge_into(st, c, s1, s2)
+                except CannotMerge:
+                    st.mem.objs = snap[0]
+                    del st.pc[snap[1]:]
+                    st.trace, st.ghost = snap[2], snap[3]
+                    raise
                 self.nofork -= 1
                 return NORMAL
             except CannotMerge as ex:
@@ -311,6 +322,28 @@ class Sym(Exec):
         if self.decide(st, c):
             return self.exec_stmt(st, then)
         return self.exec_stmt(st, els) if els is not None else NORMAL
+
+    def _fork_requested(self, n):
+        """packs may ask for a fork (no ite-merge) at an `if` whose branches declare one of the named locals, so that a
+        later contract can still read those locals (merging drops branch-local objects)"""
+        names = getattr(self, "fork_ifs_declaring", None)
+        if not names:
+            return False
+        key = ("forkif", n.get("id"), tuple(sorted(names)))
+        r = self.math_cache.get(key)
+        if r is None:
+            r = False
+            stack = [c for c in n.get("inner", ())[1:] if isinstance(c, dict)]
+            while stack:
+                x = stack.pop()
+                if x.get("kind") == "VarDecl" and x.get("name") in names:
+                    r = True
+                    break
+                stack.extend(c for c in x.get("inner", ()) if isinstance(c, dict))
+            self.math_cache[key] = r
+        if r and self.nofork:
+            raise CannotMerge()
+        return r
 
     def _has_jump(self, n):
         key = ("jump", n.get("id"))
@@ -669,6 +702,64 @@ class Sym(Exec):
 
     def loop_modifies(self, st, n, cond, inc, body, spec):
         """Set of (object id, leaf) written by an arbitrary iteration: syntactic locals + dry runs."""
+        ck = None
+        if getattr(spec, "cache_mods", False):
+            # opt-in (pack sets loopspecs[..].cache_mods = True): the write set of this loop is computed once per process
+            # and reused on later path replays / dry-run rounds (object ids differ between replays: stored by name).
+            # Only for loops whose write set does not depend on the call context or on the path taken to reach them.
+            ck = (tuple(self.callstack), n["id"])
+            hit = self.__dict__.setdefault("_mods_cache", {}).get(ck)
+            r = self._mods_resolve(st, hit) if hit is not None else None
+            if r is not None:
+                return r
+        mods = self._loop_modifies(st, n, cond, inc, body, spec)
+        if ck is not None:
+            d = self._mods_describe(st, mods)
+            if d is not None:
+                self._mods_cache[ck] = d
+        return mods
+
+    def _mods_names(self, st):
+        locs = {}
+        for fi, fr in enumerate(st.frames):
+            for did, oid in fr.items():
+                locs[oid] = ("local", fi - len(st.frames), did)
+        names = {}
+        for oid, o in st.mem.objs.items():
+            if oid not in locs:
+                names.setdefault((type(o).__name__, getattr(o, "name", None)), []).append(oid)
+        return locs, names
+
+    def _mods_describe(self, st, mods):
+        locs, names = self._mods_names(st)
+        out = []
+        for (oid, leaf) in mods:
+            if oid in locs:
+                out.append((locs[oid], leaf))
+                continue
+            o = st.mem.objs.get(oid)
+            key = (type(o).__name__, getattr(o, "name", None))
+            if o is None or key[1] is None or len(names.get(key, ())) != 1:
+                return None
+            out.append((("obj",) + key, leaf))
+        return out
+
+    def _mods_resolve(self, st, desc):
+        locs, names = self._mods_names(st)
+        out = set()
+        for (d, leaf) in desc:
+            if d[0] == "local":
+                if -d[1] > len(st.frames) or d[2] not in st.frames[d[1]]:
+                    return None
+                out.add((st.frames[d[1]][d[2]], leaf))
+            else:
+                ids = names.get((d[1], d[2]), ())
+                if len(ids) != 1:
+                    return None
+                out.add((ids[0], leaf))
+        return out
+
+    def _loop_modifies(self, st, n, cond, inc, body, spec):
         mods = set()
         # locals assigned syntactically
         for did in self._assigned_decls(n):
